@@ -4,8 +4,11 @@
 // For every function named in functions.txt (committed next to this file) it
 // lists, in source order, the function's BLOCKING SITES: select statements
 // with their alternatives, channel sends / receives outside a select, range
-// loops over channels, Wait calls (sync.WaitGroup, sync.Cond, other), and
-// time.Sleep.  Function literals (goroutines, callbacks, deferred closures)
+// loops over channels, Wait calls (sync.WaitGroup, sync.Cond, other),
+// time.Sleep, and the channel creations make(chan T[, n]) with the name the
+// channel is given and its capacity expression (allow-list entries that rely
+// on a capacity are tied to them).  A receive of the two-valued form
+// (v, ok := <-ch) is marked RecvFromOk.  Function literals (goroutines, callbacks, deferred closures)
 // belong to the enclosing function; the site records the nesting ("go",
 // "func", "defer").  coq/C17/Tie.v proves by computation that the hand-written
 // table of wait sites of the C17 model (coq/C17/Model.v code_sites, references
@@ -30,8 +33,9 @@
 // to).
 //
 // usage: genwaitsites [-repo dir] [-all file.go ...]
-//   default: the committed list, Coq file on stdout
-//   -all:    every function of the given files (discovery, plain text)
+//
+//	default: the committed list, Coq file on stdout
+//	-all:    every function of the given files (discovery, plain text)
 package main
 
 import (
@@ -53,8 +57,9 @@ import (
 var functionsTxt string
 
 type alt struct {
-	kind string // RecvFrom SendTo Timer Default WaitOn
-	text string
+	kind  string // RecvFrom RecvFromOk SendTo Timer Default WaitOn Made
+	text  string
+	text2 string // Made: the capacity expression ("0" = unbuffered)
 }
 
 type site struct {
@@ -211,8 +216,9 @@ type walker struct {
 	p      *pkgInfo
 	fn     string
 	locals map[string]int
-	timers map[string]string // local name -> text of the timer expression it was assigned
-	calls  bool              // also list X.Stop() calls and close(ch) (the "+calls" flag)
+	timers map[string]string      // local name -> text of the timer expression it was assigned
+	made   map[*ast.CallExpr]bool // make(chan ...) calls already listed with their name
+	calls  bool                   // also list X.Stop() calls and close(ch) (the "+calls" flag)
 	out    []site
 }
 
@@ -233,17 +239,55 @@ func (w *walker) bits(e ast.Expr) int {
 	return w.p.names[h] | w.locals[h]
 }
 
+// recvAltOk: the receive is of the two-valued form (v, ok := <-ch), the only
+// form that can tell a closed channel from a value.
+func (w *walker) recvAltOk(x ast.Expr, twoValued bool) alt {
+	a := w.recvAlt(x)
+	if twoValued && a.kind == "RecvFrom" {
+		a.kind = "RecvFromOk"
+	}
+	return a
+}
+
+func isMakeChan(e ast.Expr) (*ast.CallExpr, bool) {
+	c, ok := e.(*ast.CallExpr)
+	if !ok {
+		return nil, false
+	}
+	f, ok := c.Fun.(*ast.Ident)
+	if !ok || f.Name != "make" || len(c.Args) < 1 {
+		return nil, false
+	}
+	_, isChan := c.Args[0].(*ast.ChanType)
+	return c, isChan
+}
+
+// addMake lists a channel creation: the name it is given (variable, field of
+// a composite literal, assigned expression; "" when it is used in place) and
+// its capacity expression.
+func (w *walker) addMake(ctx []string, c *ast.CallExpr, name string) {
+	if w.made[c] {
+		return
+	}
+	w.made[c] = true
+	capText := "0"
+	if len(c.Args) >= 2 {
+		capText = w.p.text(c.Args[1])
+	}
+	w.add(ctx, "MakeChan", []alt{{kind: "Made", text: name, text2: capText}})
+}
+
 func (w *walker) recvAlt(x ast.Expr) alt {
 	if isTimerExpr(x) {
-		return alt{"Timer", w.p.text(x)}
+		return alt{kind: "Timer", text: w.p.text(x)}
 	}
 	// a local variable holding a timer channel: timeout := time.After(d)
 	if id, ok := x.(*ast.Ident); ok {
 		if t, ok := w.timers[id.Name]; ok {
-			return alt{"Timer", t}
+			return alt{kind: "Timer", text: t}
 		}
 	}
-	return alt{"RecvFrom", w.p.text(x)}
+	return alt{kind: "RecvFrom", text: w.p.text(x)}
 }
 
 func recvOperand(e ast.Expr) (ast.Expr, bool) {
@@ -296,9 +340,9 @@ func (w *walker) walk(n ast.Node, ctx []string) {
 			switch s := cc.Comm.(type) {
 			case nil:
 				hasDefault = true
-				alts = append(alts, alt{"Default", ""})
+				alts = append(alts, alt{kind: "Default", text: ""})
 			case *ast.SendStmt:
-				alts = append(alts, alt{"SendTo", w.p.text(s.Chan)})
+				alts = append(alts, alt{kind: "SendTo", text: w.p.text(s.Chan)})
 			case *ast.ExprStmt:
 				if op, ok := recvOperand(s.X); ok {
 					alts = append(alts, w.recvAlt(op))
@@ -306,7 +350,7 @@ func (w *walker) walk(n ast.Node, ctx []string) {
 			case *ast.AssignStmt:
 				if len(s.Rhs) == 1 {
 					if op, ok := recvOperand(s.Rhs[0]); ok {
-						alts = append(alts, w.recvAlt(op))
+						alts = append(alts, w.recvAltOk(op, len(s.Lhs) == 2))
 					}
 				}
 			}
@@ -324,7 +368,7 @@ func (w *walker) walk(n ast.Node, ctx []string) {
 		return
 	case *ast.SendStmt:
 		w.walk(x.Value, ctx)
-		w.add(ctx, "BareSend", []alt{{"SendTo", w.p.text(x.Chan)}})
+		w.add(ctx, "BareSend", []alt{{kind: "SendTo", text: w.p.text(x.Chan)}})
 		return
 	case *ast.UnaryExpr:
 		if x.Op == token.ARROW {
@@ -345,6 +389,10 @@ func (w *walker) walk(n ast.Node, ctx []string) {
 		w.walk(x.Body, ctx)
 		return
 	case *ast.CallExpr:
+		if c, ok := isMakeChan(x); ok {
+			w.addMake(ctx, c, "")
+			return
+		}
 		if s, ok := x.Fun.(*ast.SelectorExpr); ok {
 			name := s.Sel.Name
 			switch {
@@ -357,31 +405,51 @@ func (w *walker) walk(n ast.Node, ctx []string) {
 					k = "CondWait"
 				}
 				w.walk(s.X, ctx)
-				w.add(ctx, k, []alt{{"WaitOn", w.p.text(s.X)}})
+				w.add(ctx, k, []alt{{kind: "WaitOn", text: w.p.text(s.X)}})
 				return
 			case strings.HasPrefix(name, "WaitFor"):
 				w.walk(s.X, ctx)
 				for _, a := range x.Args {
 					w.walk(a, ctx)
 				}
-				w.add(ctx, "OtherWait", []alt{{"WaitOn", w.p.text(x.Fun)}})
+				w.add(ctx, "OtherWait", []alt{{kind: "WaitOn", text: w.p.text(x.Fun)}})
 				return
 			case name == "Sleep":
 				if id, ok := s.X.(*ast.Ident); ok && id.Name == "time" {
-					w.add(ctx, "Sleep", []alt{{"Timer", w.p.text(x)}})
+					w.add(ctx, "Sleep", []alt{{kind: "Timer", text: w.p.text(x)}})
 					return
 				}
 			case name == "Stop" && len(x.Args) == 0 && w.calls:
 				w.walk(s.X, ctx)
-				w.add(ctx, "StopCall", []alt{{"WaitOn", w.p.text(s.X)}})
+				w.add(ctx, "StopCall", []alt{{kind: "WaitOn", text: w.p.text(s.X)}})
 				return
 			}
 		}
 		if f, ok := x.Fun.(*ast.Ident); ok && f.Name == "close" && len(x.Args) == 1 && w.calls {
-			w.add(ctx, "CloseChan", []alt{{"WaitOn", w.p.text(x.Args[0])}})
+			w.add(ctx, "CloseChan", []alt{{kind: "WaitOn", text: w.p.text(x.Args[0])}})
 			return
 		}
 	case *ast.AssignStmt:
+		// v, ok := <-ch outside a select
+		if len(x.Lhs) == 2 && len(x.Rhs) == 1 {
+			if op, ok := recvOperand(x.Rhs[0]); ok {
+				w.walk(op, ctx)
+				a := w.recvAltOk(op, true)
+				k := "BareRecv"
+				if a.kind == "Timer" {
+					k = "TimerRecv"
+				}
+				w.add(ctx, k, []alt{a})
+				return
+			}
+		}
+		if len(x.Lhs) == len(x.Rhs) {
+			for i, r := range x.Rhs {
+				if c, ok := isMakeChan(r); ok {
+					w.addMake(ctx, c, w.p.text(x.Lhs[i]))
+				}
+			}
+		}
 		// local channel declarations: x := make(chan T[, n])
 		if len(x.Lhs) == len(x.Rhs) {
 			for i, l := range x.Lhs {
@@ -411,10 +479,21 @@ func (w *walker) walk(n ast.Node, ctx []string) {
 				}
 			}
 		}
+	case *ast.KeyValueExpr:
+		if c, ok := isMakeChan(x.Value); ok {
+			w.addMake(ctx, c, w.p.text(x.Key))
+		}
 	case *ast.DeclStmt:
 		if gd, ok := x.Decl.(*ast.GenDecl); ok && gd.Tok == token.VAR {
 			for _, sp := range gd.Specs {
 				vs := sp.(*ast.ValueSpec)
+				if len(vs.Names) == len(vs.Values) {
+					for i, v := range vs.Values {
+						if c, ok := isMakeChan(v); ok {
+							w.addMake(ctx, c, vs.Names[i].Name)
+						}
+					}
+				}
 				b := 0
 				if vs.Type != nil {
 					b = typeBits(vs.Type)
@@ -481,7 +560,7 @@ func funcID(file string, fd *ast.FuncDecl) string {
 }
 
 func sitesOf(p *pkgInfo, file string, fd *ast.FuncDecl, calls bool) []site {
-	w := &walker{p: p, fn: file + ":" + funcID(file, fd), locals: map[string]int{}, timers: map[string]string{}, calls: calls}
+	w := &walker{p: p, fn: file + ":" + funcID(file, fd), locals: map[string]int{}, timers: map[string]string{}, made: map[*ast.CallExpr]bool{}, calls: calls}
 	w.declareFields(fd.Recv)
 	w.declareFields(fd.Type.Params)
 	w.declareFields(fd.Type.Results)
@@ -500,6 +579,8 @@ func (s site) coq() string {
 	for _, a := range s.alts {
 		if a.kind == "Default" {
 			as = append(as, "Default")
+		} else if a.kind == "Made" {
+			as = append(as, "Made "+coqStr(a.text)+" "+coqStr(a.text2))
 		} else {
 			as = append(as, a.kind+" "+coqStr(a.text))
 		}
